@@ -369,3 +369,39 @@ def established(rule_fn, *args):
     except (AnchorMissing, ShapeUnrecognised, KeyError, IndexError, TypeError, AttributeError):
         return False
     return pr.good and pr.count > 0
+
+
+def rule_config_reaches_component(ctx, p, cfg, rid, deser_suffix, ctor_suffix, stored=None):
+    """A component built from a document gets the document's values: the Deserialize impl hands the configuration (or its
+    fields) to the constructor unchanged - no rewriting of particular values on the way - and returns exactly that
+    component; the constructor stores its argument in the field the component reads (`stored`: field -> parameter)."""
+    from l4sa.core import AnchorMissing, deep_strip, walk, show
+    from l4sa import q
+    with ctx.rule(rid, "the configured value reaches the component unchanged", cfg) as r:
+        fs = [f for path, f in p.fns.items() if path.endswith("::deserialize") and deser_suffix in path and "Derive" not in (f.d.get("exp") or "") and "config::raw::Deserialize" in path]
+        if len(fs) != 1:
+            raise AnchorMissing("Deserialize impl %s not found (%d candidates)" % (deser_suffix, len(fs)))
+        f = fs[0]
+        cs = [c for c in f.calls() if (c.callee or "").endswith(ctor_suffix)]
+        if not r.require(len(cs) == 1, "one-constructor-call", fn=f, detail="%s call sites in %s: %d" % (ctor_suffix, deser_suffix, len(cs))):
+            return
+
+        def from_config(e):
+            e = deep_strip(e)
+            while e[0] == "field":
+                e = deep_strip(e[1])
+            return e == ("param", 2)
+        c = cs[0]
+        args = c.arg_exprs()
+        bad = [show(a, 5) for a in args if not (from_config(a) and not any(x[0] in ("phi", "bin", "un") or (x[0] == "call") for x in walk(deep_strip(a))))]
+        r.require(bool(args) and not bad, "arguments-are-the-configured-values", fn=f, site=c.at, detail="%s(%s)" % (ctor_suffix, ", ".join(show(a, 4) for a in args)),
+                  fail_detail="%s is built from %s, not from the configured value as it stands: some configured values are replaced on the way" % (ctor_suffix, bad))
+        rets = [e for b, e in q.ret_assignments(f) if q.classify_ret(e) != "err" and not q.is_from_residual(e)]
+        r.require(bool(rets) and all(any(x[0] == "call" and len(x) > 3 and x[3] == c.block and x[1] == c.callee for x in walk(e)) for e in rets), "returns-that-component", fn=f,
+                  detail="every non-error return is the component built there")
+        if stored:
+            g = p.fn(c.callee)
+            e = deep_strip(g.local_expr(0))
+            fd = {n: deep_strip(v) for n, v in e[3]} if e[0] == "agg" else {}
+            for fld, prm in stored.items():
+                r.require(fd.get(fld) == ("param", prm), "constructor-stores:%s" % fld, fn=g, detail="%s keeps its argument in `%s`: %s" % (ctor_suffix, fld, show(fd.get(fld), 4) if fd.get(fld) else None))
